@@ -86,7 +86,7 @@ class ProcessorBoom(Exception):
 
 class Inst:
     __slots__ = ("k", "g", "key", "coro", "task", "started", "timed_out", "got_eos", "proc_raised",
-                 "exit", "waiting", "wait_since", "wait_timeout", "busy", "t_created", "t_spawn",
+                 "exit", "waiting", "wait_since", "wait_timeout", "busy", "in_wait", "timeout_took", "last_got", "t_created", "t_spawn",
                  "t_exit", "t_left", "p_spawn", "p_left", "waiters", "obj")
 
     def __init__(self, k: int, g: int, key: Any) -> None:
@@ -96,6 +96,9 @@ class Inst:
         self.exit: str | None = None
         self.waiting = False
         self.busy = False
+        self.in_wait = False          # inside `wait_for(backlog.get(), …)`
+        self.timeout_took = False     # took an item synchronously in the TimeoutError branch
+        self.last_got: Any = None
         self.wait_since = self.wait_timeout = 0.0
         self.t_created = self.t_spawn = self.t_exit = self.t_left = None
         self.p_spawn = self.p_left = None
@@ -189,6 +192,14 @@ class Observer:
         else:
             self.label(["arrive", self.key_index(queue.vkey), seq])
 
+    def on_get(self, queue: Any, item: Any) -> None:
+        inst = self.by_task.get(asyncio.current_task())
+        if inst is None:
+            return
+        inst.last_got = item
+        if inst.timed_out and not inst.in_wait:
+            inst.timeout_took = True      # `except TimeoutError: … raw_event = backlog.get_nowait()`
+
     def on_worker_call(self, **kw: Any) -> Any:
         key, streams = kw["key"], kw["streams"]
         self.streams = streams
@@ -218,7 +229,8 @@ class Observer:
         elif exc is not None:
             inst.exit = "fail" if inst.proc_raised else "weird"
         else:
-            inst.exit = "retire" if inst.timed_out else "eos" if inst.got_eos else "weird"
+            inst.exit = ("eos" if inst.last_got is self.q.EOS.token else
+                         "retire" if inst.timed_out and not inst.timeout_took else "weird")
         inst.waiting = False
         inst.t_exit = self.ticks()
         if inst.exit == "fail" and self.fail_t is None:
@@ -389,7 +401,11 @@ class Observer:
         else:
             inst.busy = True
             inst.obj = rec["obj"]
-            self.label(["take", inst.k, inst.g, seq])
+            if inst.timeout_took:
+                inst.timeout_took = inst.timed_out = False
+                self.label(["ttake", inst.k, inst.g, seq])
+            else:
+                self.label(["take", inst.k, inst.g, seq])
         rec["p0"] = self.pos
         self.nbusy += 1
         self.max_busy = max(self.max_busy, self.nbusy)
@@ -428,6 +444,8 @@ class Observer:
             return await asyncio.wait_for(fut, timeout)
         if inst.timed_out:
             inst.timed_out = False
+            self.anomalies.append(f"worker ({inst.k},{inst.g}) re-waits after a timeout on a filled queue "
+                                  f"(the model takes the found event in the same segment)")
             self.label(["retry", inst.k, inst.g])
         inst.wait_since, inst.wait_timeout = self.now(), timeout
         stream = self.streams.get(inst.key) if self.streams is not None else None
@@ -437,6 +455,7 @@ class Observer:
                 if not f.done():
                     f.set_result(None)
             inst.waiters.clear()
+        inst.in_wait = True
         try:
             res = await asyncio.wait_for(fut, timeout)
         except asyncio.TimeoutError:
@@ -444,6 +463,7 @@ class Observer:
             raise
         finally:
             inst.waiting = False
+            inst.in_wait = False
         if res is self.q.EOS.token:
             inst.got_eos = True
         return res
@@ -468,6 +488,11 @@ def simulate(scn: dict, policy: str = "fifo", max_steps: int = 5000) -> dict:
         def put_nowait(self, item: Any) -> None:
             super().put_nowait(item)
             obs.on_put(self, item)
+
+        def get_nowait(self) -> Any:
+            item = super().get_nowait()
+            obs.on_get(self, item)
+            return item
 
     class ObservedCondition(asyncio.Condition):
         """the watcher's `signaller`: a worker enters it right after `del streams[key]`"""
